@@ -61,15 +61,20 @@ class FatalScenario:
         self.nmsgs = len(sizes)
         self.fatal_thread = rnd.choice(["main", "main", "thread"])
         self.badflush = self.config != "oneline" and rnd.random() < 0.4
+        # one of the sinks may sit behind a filter that rejects the fatal message itself: what it accepted before must
+        # reach its file all the same
+        self.filtered = rnd.randrange(nsinks) if (self.config != "oneline" and rnd.random() < 0.35) else -1
         self.list_every = self.nmsgs <= 40
 
     def to_json(self, root):
         return {"id": self.id, "root": str(root), "config": self.config, "sinks": self.sinks, "now": R.ms_of(2, 100),
                 "msgs": [R.b64(self.payload[i]) for i in range(1, self.nmsgs + 1)], "fatal": R.b64(self.payload[self.nmsgs + 1]),
-                "fatalThread": self.fatal_thread, "listEvery": self.list_every, "badflush": self.badflush}
+                "fatalThread": self.fatal_thread, "listEvery": self.list_every, "badflush": self.badflush,
+                "filtered": self.filtered, "fatalPrefix": f"r{self.nmsgs + 1}:"}
 
     def describe(self):
         return {"id": self.id, "config": self.config, "sinks": self.sinks, "messages": self.nmsgs, "fatal_thread": self.fatal_thread, "a_sink_whose_flush_fails_comes_first": self.badflush,
+                "sink_behind_a_filter_that_rejects_the_fatal_message": self.filtered,
                 "fatal_bytes": len(self.payload[self.nmsgs + 1])}
 
 
@@ -189,6 +194,8 @@ def translate_sink(scn, j, raw, final):
         elif k == "Begin":
             if e["op"] == "ctor":
                 evs.append({"e": "Begin", "op": "ctor", "rec": 0, "len": 0})
+            elif e.get("fatal") and j == scn.filtered:
+                pass            # the fatal message never reaches this sink
             else:
                 rec += 1
                 evs.append({"e": "Begin", "op": "send", "rec": rec, "len": rlen(rec)})
